@@ -103,6 +103,12 @@ type Interp struct {
 	FnsRun    map[*ssa.Function]bool
 	MapOrder  func(n int) []int // optional permutation oracle for map range
 	Params    map[string]int
+	mapOrderMode int
+	permCount    int
+	permBySize   map[int][]int
+	nativeCells  map[any]*Value
+	mons         [2]*monitor
+	globalCells  map[any]bool
 	NoModel   map[string]bool // external models switched off (validation harnesses)
 }
 
@@ -258,7 +264,7 @@ func (in *Interp) panicString(v Value) string {
 		if i.T != nil {
 			// error or Stringer
 			for _, name := range []string{"Error", "String"} {
-				if m := in.P.Prog.LookupMethod(i.T, nil, name); m != nil && len(m.Blocks) > 0 {
+				if m := in.findMethod(i.T, name); m != nil && len(m.Blocks) > 0 {
 					r := func() (r Value) {
 						defer func() {
 							if e := recover(); e != nil {
@@ -573,6 +579,9 @@ func (in *Interp) visit(fr *frame, instr ssa.Instruction) cont {
 		if m == nil {
 			in.goPanic(runtimeError("assignment to entry in nil map"))
 		}
+		if in.mon != nil {
+			in.mon.write(m)
+		}
 		in.mapPut(m, in.get(fr, instr.Key), in.get(fr, instr.Value))
 	case *ssa.TypeAssert:
 		in.set(fr, instr, in.typeAssert(instr, in.get(fr, instr.X).(Iface)))
@@ -795,6 +804,9 @@ func (in *Interp) lookup(fr *frame, instr *ssa.Lookup) Value {
 		key := in.get(fr, instr.Index)
 		var v Value
 		ok := false
+		if in.mon != nil && x != nil {
+			in.mon.read(x)
+		}
 		if x != nil {
 			v, ok = in.mapGet(x, key)
 		}
@@ -1030,13 +1042,19 @@ func (in *Interp) rangeIter(fr *frame, instr *ssa.Range) Value {
 		return &strIter{s: x}
 	case *Map:
 		it := &mapIter{m: x}
+		if in.mon != nil && x != nil {
+			in.mon.read(x)
+		}
 		if x != nil {
 			for i := range x.keys {
 				if x.alive[i] {
 					it.order = append(it.order, i)
 				}
 			}
-			if in.MapOrder != nil && len(it.order) > 1 {
+			if in.MapOrder == nil && in.mapOrderMode == 1 && in.Ex != nil {
+				in.MapOrder = in.symbolicPerm
+			}
+			if in.MapOrder != nil && in.mapOrderMode == 1 && len(it.order) > 1 {
 				perm := in.MapOrder(len(it.order))
 				o2 := make([]int, len(it.order))
 				for i, p := range perm {
@@ -1053,3 +1071,62 @@ func (in *Interp) rangeIter(fr *frame, instr *ssa.Range) Value {
 }
 
 var _ = token.ADD
+
+// symbolicPerm picks an arbitrary permutation of n map entries: all n! of
+// them for n <= 4, the n rotations and their reversals above. The choice is a
+// fresh symbolic variable per map size and path, resolved by case split; every
+// range over a map of that size uses it (independent choices per range
+// statement multiply into millions of paths on ConstructLALR).
+func (in *Interp) symbolicPerm(n int) []int {
+	if p, ok := in.permBySize[n]; ok {
+		return p
+	}
+	p := in.symbolicPerm1(n)
+	if in.permBySize == nil {
+		in.permBySize = map[int][]int{}
+	}
+	in.permBySize[n] = p
+	return p
+}
+
+func (in *Interp) symbolicPerm1(n int) []int {
+	fact := 1
+	full := n <= 4
+	if full {
+		for i := 2; i <= n; i++ {
+			fact *= i
+		}
+	} else {
+		fact = 2 * n
+	}
+	name := fmt.Sprintf("maporder%d", in.permCount)
+	in.permCount++
+	v := in.FreshInt(name, 8)
+	in.Assume(symBool(in.TT.Cmp(OpULt, v.T, in.TT.Const(8, uint64(fact)))))
+	k := int(in.pickValue(v.T))
+	perm := make([]int, 0, n)
+	if full {
+		avail := make([]int, n)
+		for i := range avail {
+			avail[i] = i
+		}
+		f := fact
+		for i := n; i >= 1; i-- {
+			f /= i
+			idx := k / f
+			k %= f
+			perm = append(perm, avail[idx])
+			avail = append(avail[:idx], avail[idx+1:]...)
+		}
+		return perm
+	}
+	rot, rev := k%n, k >= n
+	for i := 0; i < n; i++ {
+		j := (i + rot) % n
+		if rev {
+			j = (n - 1 - i + rot) % n
+		}
+		perm = append(perm, j)
+	}
+	return perm
+}
